@@ -576,6 +576,62 @@ theorem C24_crashInv_sound (touched : List Uri) (via : Bool) (pre done : Option 
       simp only [Bool.and_eq_true, beq_iff_eq] at h
       exact ⟨p, rfl, h.1, agreeOutside_sound h.2⟩
 
+/-! ### Why the hypothesis "the server has moved on" is needed -/
+
+namespace C24Witness
+open C25Witness
+
+def loc0 : Local :=
+  { objs := [(2, 12), (1, 11)],
+    state := { session := 0, serial := 3, etag := some 1, lm := none, updated := 100,
+               bestBefore := 110, deltaState := [] } }
+
+/-- what a kill between the element and the state write leaves -/
+def left : Local := { loc0 with objs := [(2, 13), (1, 11)] }
+
+/-- the interrupted update: the genuine step to serial 4 -/
+def resp4 : NResp := .ok (some 2) none true (some notif4)
+def fs4 : Files := [none, some delta4]
+
+/-- afterwards the server presents the old version again (a lagging cache node): it honours the
+conditional request for the old validator -/
+def respOld : NResp := .ok (some 1) none true (some notif3)
+
+end C24Witness
+
+/-- **Without `hnm` the statement fails on the code** (known finding
+`crash-then-stale-server-view`): clean copy at serial 3, genuine update to serial 4 killed
+between the element and the state write, then a server view of serial 3 again (Not Modified for the
+old validator): the update is reported successful with the partially updated copy. -/
+theorem C24_reverted_server_fails :
+    Clean C25Witness.hist C24Witness.loc0 ∧
+    Honest C25Witness.hist C25Witness.notif4 C24Witness.fs4 ∧
+    some C24Witness.left ∈ scan (some C24Witness.loc0)
+      (storeOps C25Witness.cfg 102 10 (some C24Witness.loc0) C24Witness.resp4 C24Witness.fs4) ∧
+    Honest C25Witness.hist C25Witness.notif3 [] ∧
+    (update C25Witness.cfg 200 10 (some C24Witness.left) C24Witness.respOld []).result = .updated ∧
+    ¬ ∃ l', (update C25Witness.cfg 200 10 (some C24Witness.left) C24Witness.respOld []).loc = some l' ∧
+      Clean C25Witness.hist l' := by
+  refine ⟨⟨[(2, 12), (1, 11)], rfl, fun _ => rfl⟩, ?_, by decide, ?_, by decide, ?_⟩
+  · have := C25Witness.honest _ (by simp [C25Witness.steps] :
+      ({ now := 102, draw := 10, resp := .ok none none false (some C25Witness.notif4),
+         fs := [none, some C25Witness.delta4] } : RrdpStep) ∈ C25Witness.steps)
+    exact this none none false C25Witness.notif4 rfl
+  · refine ⟨?_, ?_⟩
+    · intro d hd; simp [Files.fetch] at hd
+    · intro e he; simp [C25Witness.notif3] at he
+  · rintro ⟨l', hl, x, hx, hsame⟩
+    have hloc : (update C25Witness.cfg 200 10 (some C24Witness.left) C24Witness.respOld []).loc =
+        some { C24Witness.left with
+          state := { C24Witness.left.state with updated := 200, bestBefore := 210 } } := by decide
+    rw [hloc] at hl
+    cases hl
+    have : x = [(2, 12), (1, 11)] := by
+      simp [History.at, C25Witness.hist, C24Witness.left, C24Witness.loc0] at hx; exact hx.symm
+    subst this
+    have h2 := hsame 2
+    simp [Objs.get, List.lookup, C24Witness.left, C24Witness.loc0] at h2
+
 /-! ### Non-vacuity: a two-element delta update has four crash states, the middle ones dirty. -/
 
 example :
